@@ -175,8 +175,8 @@ def recipes():
         add(n, "getDifferentiationWeights#0.t0", RE, NE)
     for n in ["load.long", "load.short", "load.empty", "loadpts.long"]:
         add(n, "loadNeededValues#0.t0", RE, NE)
-    for n in ["eval.long", "eval.short"]:
-        add(n, "evaluate#0.t0", RE, ALWAYS, NE)
+    add("eval.long", "evaluate#0.t0", RE, ALWAYS, NE)
+    add("eval.short", "evaluate#0.t0", RE, NE)      # on an empty grid an empty x has the "right" size
     add("evalbatch.float", "evaluateBatch#0.t0", RE, ALWAYS)
     add("evalfast.float", "evaluateBatch#0.t0", RE, ALWAYS)
     add("evalbatch.floatraw", "evaluateBatch#2.t0", RE, ALWAYS)
@@ -317,7 +317,7 @@ def parse_cases(text):
             continue
         if t[0] == "case":
             cur = {"id": t[1], "setup_exc": [], "pre": None, "twin": None, "post": None, "x": None, "f": {"g": {}, "r": {}}, "done": False,
-                   "crash": None, "skip": None}
+                   "crash": None, "skip": None, "callbegin": False}
             cases[t[1]] = cur
         elif cur is None:
             continue
@@ -331,6 +331,8 @@ def parse_cases(text):
             cur["f"][t[1]][t[2]] = " ".join(t[3:])
         elif t[0] == "skip":
             cur["skip"] = " ".join(t[1:])
+        elif t[0] == "callbegin":
+            cur["callbegin"] = True
         elif t[0] == "done":
             cur["done"] = True
         elif t[0] == "crash":
@@ -387,6 +389,11 @@ def judge(res, c, rc, st, script, err, stats, obs, doc_types=None):
         # outside the documented contract: recorded only
         outcome = "crash: " + c["crash"] if (c["crash"] and c["x"] is None) else (c["x"]["type"] if c["x"] else "?")
         obs["outside_contract"][rc.name] = outcome + ((" | " + err[0][:160]) if err and c["crash"] else "")
+        return False
+    if c["x"] is None and not c["callbegin"]:
+        # the valid set-up calls (or the queries of the digest) fail in this state before the bad call is issued: not C14's subject
+        stats["setup_failed"] += 1
+        obs["setup_failed"].append("%s: %s %s" % (st.name, c["crash"], (err[0][:140] if err else "")))
         return False
     if c["x"] is None:
         # the call itself did not return: crash / sanitizer abort / hang
@@ -467,6 +474,10 @@ def judge(res, c, rc, st, script, err, stats, obs, doc_types=None):
 # ---------------------------------------------------------------------------------------------------- main
 def run(res, tier, seed, replay_obj=None):
     os.makedirs(WORK, exist_ok=True)
+    if replay_obj is None and os.path.isdir(vlib.REPLAY):      # replay files of earlier C14 runs are stale
+        for f in os.listdir(vlib.REPLAY):
+            if f.startswith(PID + "-") and f.endswith(".json"):
+                os.remove(os.path.join(vlib.REPLAY, f))
     gen, tr_msg = regenerate()
     props = vlib.coq_props(PID)
     vlib.proof_coverage(res, PID, props, "python3 translator/apiguards.py $REPO coq/gen && cd coq && make Props/Properties_C14.vo && coqc -Q . TV Props/Properties_C14.v", TRUSTED)
@@ -595,7 +606,7 @@ def run(res, tier, seed, replay_obj=None):
             "empty_grid_keeps_limits_after_failed_make": sorted(obs["empty_with_limits"]),
             "outside_contract_on_empty_grid": obs["outside_contract"],
             "states_in_which_the_follow_ups_fail_on_the_untouched_twin": sorted(obs["reference_followups_failed"])[:20],
-            "setup_failed": obs["setup_failed"][:10],
+            "states_whose_valid_setup_or_digest_fails": sorted(set(obs["setup_failed"]))[:12],
         },
         "translator": {"ok": gen is not None, "message": tr_msg[:300], "methods": len(gen["methods"]) if gen else 0,
                        "family_throw_sites": len(gen["family_throw_sites"]) if gen else 0},
